@@ -266,6 +266,18 @@ Definition seq_eqb (a b : list (Z * str) * N * str) : bool :=
   let '(h1, f1, r1) := a in let '(h2, f2, r2) := b in
   list_eqb hit_eqb h1 h2 && (f1 =? f2)%N && ((f1 =? 3)%N || str_eqb r1 r2).
 
+(** what the regenerated source says about [C.RelRoute] *)
+Definition gen_relroute_acc : acc_kind := acc_of relroute_name gen_ctx_accessors.
+
+(** handler writes of a case: (handler, mode, segment): 1 overwrite every
+    remaining segment, 2 [append(rr[:1], segment)] *)
+Fixpoint writes_of (lw : list (N * (N * str))) (h : N) : option hwrite :=
+  match lw with
+  | [] => None
+  | (t, (m, sg)) :: r =>
+      if (t =? h)%N then Some (if (m =? 1)%N then w_fill sg else w_append1 sg) else writes_of r h
+  end.
+
 Inductive mstep :=
 | MReg (op : mux_op) (flag : N)              (* 1 ok, 0 refused, 2 panic *)
 | MServe (p : str) (got : option N).
@@ -307,7 +319,7 @@ Fixpoint host_steps (m : hostmux) (l : list hstep) : bool :=
   end.
 
 Inductive ccase :=
-| CSeq (routers : list (list rop)) (le : list (N * N)) (roks : list (list N)) (is : list nat)
+| CSeq (routers : list (list rop)) (le : list (N * N)) (lw : list (N * (N * str))) (roks : list (list N)) (is : list nat)
        (reqs : list (str * str)) (obs : list (list (Z * str) * N * str))
 | CMuxSteps (l : list mstep)
 | CRouterSteps (le : list (N * N)) (l : list rstep)
@@ -326,12 +338,16 @@ Definition find_eqb (a b : str * bool) : bool := str_eqb (fst a) (fst b) && Bool
 
 Definition check_case (c : ccase) : bool :=
   match c with
-  | CSeq defs le roks is reqs obs =>
+  | CSeq defs le lw roks is reqs obs =>
       let built := map (router_obs new_router) defs in
       list_eqb (list_eqb N.eqb) (map snd built) roks &&
       list_eqb seq_eqb
         (map (fun q => serve_seq gen_dispatch_cond gen_method_reject le gen_router_wrap 8
-                         (map fst built) is (new_ctx (fst q) (snd q))) reqs) obs
+                         (map fst built) is (new_ctx (fst q) (snd q))) reqs) obs &&
+      (* the same again with what the handlers write to the RelRoute they were handed *)
+      list_eqb (fun a b => list_eqb hit_eqb (fst a) (fst b) && (snd a =? snd b)%N)
+        (map (fun q => serve_seq_w gen_dispatch_cond gen_method_reject le gen_relroute_acc (writes_of lw)
+                         gen_router_wrap 8 (map fst built) is (new_ctx (fst q) (snd q))) reqs) (map fst obs)
   | CMuxSteps l => mux_steps new_mux l
   | CRouterSteps le l => router_steps le new_router l
   | CHostSteps l =>
